@@ -6,6 +6,7 @@ import (
 	"os"
 	"os/exec"
 	"path/filepath"
+	"regexp"
 	"strings"
 	"time"
 )
@@ -24,6 +25,8 @@ type ReplayFile struct {
 	ModDir        string            `json:",omitempty"`
 	ModFiles      map[string]string `json:",omitempty"`
 }
+
+var replayTimeout = 5 * time.Minute
 
 // nativeReplay runs the harness natively (go test -overlay) with the model's inputs.
 func nativeReplay(rep *ReplayFile) string {
@@ -54,7 +57,47 @@ func nativeReplayRaw(rep *ReplayFile) string {
 	return nativeRun(rep, preludeTest(rep.PkgName), "^TestVHReplay$")
 }
 
+// writeLocRe picks the source positions of the writes the executor reported for a
+// write-set assertion ("write to pre-existing object X at file.go:123").
+var writeLocRe = regexp.MustCompile(`write to pre-existing object \S+ at ([^\s;\]]+:\d+)`)
+
+// nativeRaceConfirm is the native confirmation for write-set violations whose writes
+// store what is already there: the harness runs in two goroutines under the race
+// detector, and the violation counts as reproduced only when a reported data race has
+// one of the executor's write positions on a stack.
+func nativeRaceConfirm(rep *ReplayFile) string {
+	locs := map[string]bool{}
+	for _, m := range writeLocRe.FindAllStringSubmatch(rep.Detail, -1) {
+		locs[m[1]] = true
+	}
+	if len(locs) == 0 {
+		return ""
+	}
+	out := nativeRunArgs(rep, preludeTest(rep.PkgName), "^TestVHRace$", "-race")
+	if strings.HasPrefix(out, "error:") {
+		return out
+	}
+	for _, blk := range strings.Split(out, "WARNING: DATA RACE")[1:] {
+		if i := strings.Index(blk, "=================="); i >= 0 {
+			blk = blk[:i]
+		}
+		for l := range locs {
+			if strings.Contains(blk, "/"+l+" ") || strings.Contains(blk, "/"+l+"\n") {
+				return "violated (data race between two readers, write at " + l + ")"
+			}
+		}
+	}
+	if !strings.Contains(out, "VHRACE: done") {
+		return "error: race run incomplete: " + trunc(strings.ReplaceAll(out, "\n", " | "), 300)
+	}
+	return "ok (no data race at the reported write positions)"
+}
+
 func nativeRun(rep *ReplayFile, testSrc, runRe string) string {
+	return nativeRunArgs(rep, testSrc, runRe)
+}
+
+func nativeRunArgs(rep *ReplayFile, testSrc, runRe string, extra ...string) string {
 	tmp, err := os.MkdirTemp("", "symgo-replay-")
 	if err != nil {
 		return "error: " + err.Error()
@@ -102,7 +145,9 @@ func nativeRun(rep *ReplayFile, testSrc, runRe string) string {
 	modelPath := filepath.Join(tmp, "model.json")
 	mb, _ := json.Marshal(map[string]interface{}{"Model": rep.Model})
 	os.WriteFile(modelPath, mb, 0o644)
-	cmd := exec.Command("go", "test", "-vet=off", "-count=1", "-run", runRe, "-v", "-overlay", ovPath, ".")
+	args := append([]string{"test", "-vet=off", "-count=1"}, extra...)
+	args = append(args, "-run", runRe, "-v", "-overlay", ovPath, ".")
+	cmd := exec.Command("go", args...)
 	cmd.Dir = rep.PkgDir
 	cmd.Env = append(os.Environ(), "VH_REPLAY="+modelPath, "VH_HARNESS="+rep.Harness)
 	done := make(chan struct{})
@@ -110,7 +155,7 @@ func nativeRun(rep *ReplayFile, testSrc, runRe string) string {
 	go func() { out, err = cmd.CombinedOutput(); close(done) }()
 	select {
 	case <-done:
-	case <-time.After(5 * time.Minute):
+	case <-time.After(replayTimeout):
 		cmd.Process.Kill()
 		return "error: replay timeout"
 	}
@@ -132,7 +177,21 @@ func runReplayCmd(path string) int {
 		fmt.Printf("pipeline failure recorded: %s\n", rep.Detail)
 		return 1
 	}
+	if rep.Kind == "unwind" {
+		raw := nativeRunArgs(&rep, preludeTest(rep.PkgName), "^TestVHReplay$", "-timeout=20s")
+		if strings.Contains(raw, "test timed out after 20s") {
+			fmt.Printf("replay %s %s/%s: no result within 20 s natively\n", rep.Property, rep.Harness, rep.Assert)
+			return 1
+		}
+		fmt.Printf("replay %s %s/%s: %s\n", rep.Property, rep.Harness, rep.Assert, classifyReplay(raw))
+		return 0
+	}
 	out := nativeReplay(&rep)
+	if out == "ok" && strings.Contains(rep.Detail, "write to pre-existing object") {
+		if rc := nativeRaceConfirm(&rep); rc != "" {
+			out = rc
+		}
+	}
 	fmt.Printf("replay %s %s/%s: %s\n", rep.Property, rep.Harness, rep.Assert, out)
 	if strings.HasPrefix(out, "violated") || strings.HasPrefix(out, "panic") {
 		return 1
